@@ -17,7 +17,10 @@ package main
 import (
 	"fmt"
 	"go/ast"
+	"go/parser"
 	"go/token"
+	"os"
+	"path/filepath"
 	"sort"
 	"strings"
 )
@@ -88,7 +91,115 @@ func c20LoopTail(fset *token.FileSet, fn *ast.FuncDecl) string {
 	return strings.Join(parts, " ;; ")
 }
 
+// c20PkgVars: the package-level `var` names of every non-test file of a package directory.
+func c20PkgVars(dir string) map[string]bool {
+	out := map[string]bool{}
+	ents, err := os.ReadDir(filepath.Join(*repo, dir))
+	if err != nil {
+		die("read %s: %v", dir, err)
+	}
+	for _, de := range ents {
+		if de.IsDir() || !strings.HasSuffix(de.Name(), ".go") || strings.HasSuffix(de.Name(), "_test.go") {
+			continue
+		}
+		f, err := parser.ParseFile(token.NewFileSet(), filepath.Join(*repo, dir, de.Name()), nil, 0)
+		if err != nil {
+			die("parse %s/%s: %v", dir, de.Name(), err)
+		}
+		for _, d := range f.Decls {
+			if gd, ok := d.(*ast.GenDecl); ok && gd.Tok == token.VAR {
+				for _, sp := range gd.Specs {
+					for _, n := range sp.(*ast.ValueSpec).Names {
+						if n.Name != "_" {
+							out[n.Name] = true
+						}
+					}
+				}
+			}
+		}
+	}
+	return out
+}
+
+// c20Globals: PROCESS-GLOBAL state the replay code of C20 reaches (dimension audit, item 4): for each anchor function the
+// package-level variables of its own package and of package config it names (`x` unresolved in the file and a package-level
+// var; `config.X` with X a package-level var of config), marked `=` where the function assigns to it. The harness must
+// draw every value of those that select a branch (config.RdbPipeSize: scopes send-backpressure*).
+func c20Globals() {
+	cfgVars := c20PkgVars("config")
+	var lines []string
+	for _, a := range []struct{ dir, file string; fns []string }{
+		{"syncer", "syncer/output.go", []string{"rdbReplay", "sendRdb", "selectDB", "rdbSendCounterAdd", "rdbFilterCounterAdd"}},
+		{"syncer", "syncer/bisync_rdb.go", []string{"rdbReplayBisync", "buildBisyncRdbReplayUnit", "execBisyncRdbUnit", "bisyncRdbUseRestore", "bisyncRdbTTLms", "captureBisyncRdbExpandedCommands", "captureBisyncRdbRestoreCommand", "bisyncRdbTargetReserved"}},
+		{"pkg/rdbrestore", "pkg/rdbrestore/restore.go", []string{"Replay", "restoreOnce", "restoreBigRdbEntry", "rewriteKeyArgs", "flushAndCheckReply"}},
+	} {
+		own := c20PkgVars(a.dir)
+		_, f := parseFile(a.file)
+		for _, d := range f.Decls {
+			fn, ok := d.(*ast.FuncDecl)
+			if !ok || fn.Body == nil {
+				continue
+			}
+			want := false
+			for _, n := range a.fns {
+				want = want || n == fn.Name.Name
+			}
+			if !want {
+				continue
+			}
+			used := map[string]bool{}
+			written := map[string]bool{}
+			name := func(e ast.Expr) string {
+				switch x := e.(type) {
+				case *ast.Ident:
+					if own[x.Name] && (x.Obj == nil || x.Obj.Pos() < fn.Pos() || x.Obj.Pos() > fn.End()) {
+						return x.Name
+					}
+				case *ast.SelectorExpr:
+					if p, ok := x.X.(*ast.Ident); ok && p.Obj == nil && p.Name == "config" && cfgVars[x.Sel.Name] {
+						return "config." + x.Sel.Name
+					}
+				}
+				return ""
+			}
+			ast.Inspect(fn.Body, func(n ast.Node) bool {
+				switch x := n.(type) {
+				case *ast.AssignStmt:
+					for _, l := range x.Lhs {
+						if nm := name(l); nm != "" {
+							written[nm] = true
+						}
+					}
+				case *ast.IncDecStmt:
+					if nm := name(x.X); nm != "" {
+						written[nm] = true
+					}
+				case ast.Expr:
+					if nm := name(x); nm != "" {
+						used[nm] = true
+					}
+				}
+				return true
+			})
+			var us []string
+			for u := range used {
+				if written[u] {
+					u += "="
+				}
+				us = append(us, u)
+			}
+			sort.Strings(us)
+			if len(us) > 0 {
+				lines = append(lines, fn.Name.Name+": "+strings.Join(us, " "))
+			}
+		}
+	}
+	sort.Strings(lines)
+	facts["c20_globals"] = strings.Join(lines, " ;; ")
+}
+
 func genC20() {
+	c20Globals()
 	fset, f := parseFile("syncer/output.go")
 	for _, d := range f.Decls {
 		fn, ok := d.(*ast.FuncDecl)
